@@ -169,13 +169,23 @@ impl SecondaryTransaction {
                     guard.insert(path, Bytes::from(buf));
                 }
                 _ => {
+                    #[cfg(feature = "verif")]
+                    let verif_path = path.clone();
                     let mut file = tokio::fs::OpenOptions::default()
                         .write(true)
                         .create_new(true)
                         .open(path)
                         .await?;
+                    #[cfg(feature = "verif")]
+                    {
+                        let mut buf = vec![];
+                        DeleteVector::write_all(&mut buf, &deletes).await?;
+                        crate::verif::crash_point("dv.write", &verif_path, Some(&buf));
+                    }
                     DeleteVector::write_all(&mut file, &deletes).await?;
                     file.sync_data().await?;
+                    #[cfg(feature = "verif")]
+                    crate::verif::crash_point("dv.synced", &verif_path, None);
                 }
             }
             dvs.push(DeleteVector::new(dv_id, rowset_id, deletes));
@@ -349,6 +359,8 @@ impl SecondaryTransaction {
 
             if !self.table.storage_options.disable_all_disk_operation {
                 tokio::fs::create_dir(&directory).await?;
+                #[cfg(feature = "verif")]
+                crate::verif::crash_point("rowset.mkdir", &directory, None);
             }
 
             self.mem = Some(SecondaryMemRowsetImpl::new(
